@@ -31,7 +31,9 @@ def run(tier, seed):
             v.violation(viol['sig'], viol.get('replay'))
     if ob['drift']:
         v.notes.append("observed transfers that did not complete cleanly: %s" % str(ob['drift_samples'][:1])[:300])
-    v.coverage = dict(evaluations=res['behaviours'], distinct_nontrivial=res['distinct'],
+    import e2e_common
+    e2e_common.report_rules(v, PROP, res['trace_rules'])
+    v.coverage = dict(evaluations=res['behaviours'], distinct_nontrivial=res['distinct'], child_hook_traces_validated_by_tlc=res['trace_stats'],
                       rule="one receiver process per (tree, streams, hook point, k-th hit, optional concurrent flush trigger); non-trivial = the process really died at the kill point",
                       samples=res['samples'][:6], outcomes=res['extra'].get('outcomes'),
                       observer=dict(transfers=ob['behaviours'], observations=ob['extra'].get('observations'), sidecar_states_compared=ob['extra'].get('sidecar_loads_compared')),
